@@ -15,15 +15,21 @@ def describe(tier):
         "rule": "complete enumeration of all 4^2 operand pairs and 4^3 operand triples for each of AND/OR/XOR on the real "
                 "ConditionFulfilledValue.__and__/__or__/__xor__; oracle = literal reference table R1 (README rows, Boolean "
                 "logic, NEUTRAL identity) + commutativity + associativity + totality + UNKNOWN soundness/tightness by brute-force "
-                "refinement of every UNKNOWN operand; a case is non-trivial if at least one operand is UNKNOWN or NEUTRAL",
+                "refinement of every UNKNOWN operand; every pair table is computed a second time in reverse order (no dependence on the call "
+                "history) and in 12 child interpreters started with other PYTHONHASHSEEDs (no dependence on hash randomisation); a case is non-trivial if at least one operand is UNKNOWN or NEUTRAL",
         "bounds": {"pairs_per_operator": 16, "triples_per_operator": 64, "mixed_operator_triples": 9 * 64},
         "exhaustive": True,
         "assumptions": ["the state space {FULFILLED, UNFULFILLED, UNKNOWN, NEUTRAL} is the whole enum (checked)"],
     }
 
 
+HASHSEEDS = list(range(1, 13))
+
+
 def plan(tier, seed):
-    return [{"op": o} for o in OPS] + [{"op": "enum"}]
+    # the tables must not depend on anything but the operand values: not on the call history (second pass, reverse order) and not
+    # on the interpreter's string hash randomisation (the pair tables are recomputed in child interpreters with other PYTHONHASHSEEDs)
+    return [{"op": o} for o in OPS] + [{"op": "enum"}] + [{"op": "hashseed", "hashseed": h} for h in HASHSEEDS]
 
 
 def worker_init():
@@ -123,6 +129,8 @@ def run_item(item):
             r.violation("enum-members", {"op": "enum"}, ["FULFILLED", "NEUTRAL", "UNFULFILLED", "UNKNOWN"], names)
         r.sample({"enum": names})
         return r
+    if item["op"] == "hashseed":
+        return _run_hashseed(item, r)
     o = item["op"]
     for a, b in itertools.product(R1.STATES, repeat=2):
         vs = check_pair(o, a, b)
@@ -153,11 +161,76 @@ def run_item(item):
                 r.nontrivial += 1
             for v in vs:
                 r.violation(v["kind"], v["case"], v["expected"], v["observed"], v["msg"])
+    # second pass over the pairs, in reverse order: the result must not depend on what was computed before
+    for a, b in reversed(list(itertools.product(R1.STATES, repeat=2))):
+        got = _apply(impl, f, o, a, b)
+        r.evaluations += 1
+        r.transitions += 1
+        if got != R1.op(o, a, b):
+            r.violation(f"history-dependent/{o}", {"op": o, "operands": [a, b], "second_pass": True}, R1.op(o, a, b), got,
+                        f"{a} {o} {b} after all other combinations had been evaluated")
     r.sample({"op": [o, "xor"], "operands": ["?", "N", "F"], "result": R1.op("xor", R1.op(o, "?", "N"), "F")}, limit=3)
     return r
 
 
+_CHILD = """
+import sys, json, logging
+sys.path.insert(0, sys.argv[1]); logging.disable(logging.CRITICAL)
+import ahbicht.content_evaluation
+from ahbicht.models.condition_nodes import ConditionFulfilledValue as V
+S = {"F": V.FULFILLED, "U": V.UNFULFILLED, "?": V.UNKNOWN, "N": V.NEUTRAL}
+N = {v: k for k, v in S.items()}
+out = {}
+for name, fn in (("and", lambda a, b: a & b), ("or", lambda a, b: a | b), ("xor", lambda a, b: a ^ b)):
+    for a in S:
+        for b in S:
+            try:
+                res = fn(S[a], S[b]); out[name + a + b] = N.get(res, repr(res))
+            except BaseException as e:
+                out[name + a + b] = "exc:" + type(e).__name__
+print(json.dumps(out))
+"""
+
+
+def _child_tables(hashseed):
+    import json
+    import os
+    import subprocess
+    import sys
+
+    src = os.environ.get("VERIF_REPO", "/repo") + "/src"
+    p = subprocess.run([sys.executable, "-W", "ignore", "-c", _CHILD, src], capture_output=True, text=True,
+                       env=dict(os.environ, PYTHONHASHSEED=str(hashseed)), timeout=120)
+    if p.returncode != 0:
+        raise RuntimeError("child interpreter failed: " + p.stderr[-300:])
+    return json.loads(p.stdout)
+
+
+def _run_hashseed(item, r):
+    tables = _child_tables(item["hashseed"])
+    for o in OPS:
+        for a, b in itertools.product(R1.STATES, repeat=2):
+            got = tables[o + a + b]
+            r.evaluations += 1
+            r.states += 1
+            r.transitions += 1
+            r.traces += 1
+            r.nontrivial += 1
+            if got != R1.op(o, a, b):
+                r.violation(f"table/{o}/hashseed", {"op": o, "operands": [a, b], "hashseed": item["hashseed"]}, R1.op(o, a, b), got,
+                            f"{a} {o} {b} in an interpreter started with PYTHONHASHSEED={item['hashseed']}")
+    r.sample({"hashseed": item["hashseed"], "tables": "3 x 16 cells"})
+    return r
+
+
 def replay(case):
+    if "hashseed" in case:
+        got = _child_tables(case["hashseed"])[case["op"] + case["operands"][0] + case["operands"][1]]
+        exp = R1.op(case["op"], *case["operands"])
+        return [] if got == exp else [{"kind": f"table/{case['op']}/hashseed", "case": case, "expected": exp, "observed": got}]
+    if case.get("second_pass"):
+        vs = run_item({"op": case["op"]}).violations
+        return [v for v in vs if v["kind"].startswith("history-dependent")]
     if case.get("op") == "enum":
         return run_item({"op": "enum"}).violations
     if case.get("readme"):
